@@ -373,7 +373,7 @@ func contract_ConsumeString(b []byte) (v string, n int) {
 	return
 }
 
-// @ props C02
+// @ props C02 C27
 func contract_ParseError(n int) (err error) {
 	ensures(iff(err == nil, n >= 0))
 	ensures(imp(n == errCodeTruncated, err == io.ErrUnexpectedEOF))
